@@ -231,7 +231,8 @@ func getGroupPath(prefix, path string) string {
 func acceptsOffer(spec, offer string, _ headerParams) bool {
 	if len(spec) >= 1 && spec[len(spec)-1] == '*' {
 		return true
-	} else if strings.HasPrefix(spec, offer) && (len(spec) == len(offer) || spec[len(offer)] == '-') {
+	} else if len(spec) >= len(offer) && utils.EqualFold(spec[:len(offer)], offer) && (len(spec) == len(offer) || spec[len(offer)] == '-') {
+		// charset, content-coding and language tokens are case-insensitive
 		return true
 	}
 	return false
@@ -265,14 +266,15 @@ func acceptsOfferType(spec, offerType string, specParams headerParams) bool {
 		mimetype = utils.GetMIME(offerMime) // extension
 	}
 
-	if spec == mimetype {
+	// type and subtype are case-insensitive
+	if utils.EqualFold(spec, mimetype) {
 		// Accept: <MIME_type>/<MIME_subtype>
 		return paramsMatch(specParams, offerParams)
 	}
 
 	s := strings.IndexByte(mimetype, '/')
 	// Accept: <MIME_type>/*
-	if strings.HasPrefix(spec, mimetype[:s]) && (spec[s:] == "/*" || mimetype[s:] == "/*") {
+	if len(spec) >= s && utils.EqualFold(spec[:s], mimetype[:s]) && (spec[s:] == "/*" || mimetype[s:] == "/*") {
 		return paramsMatch(specParams, offerParams)
 	}
 
